@@ -35,10 +35,21 @@ class DocIdSet(object):
     """
 
     def __eq__(self, other):
-        for a, b in izip(self, other):
+        # Equal if they hold the same ids (both iterate in ascending order):
+        # walk them in step, and both must end together
+        try:
+            ita = iter(self)
+            itb = iter(other)
+        except TypeError:
+            return False
+        done = object()
+        while True:
+            a = next(ita, done)
+            b = next(itb, done)
+            if a is done or b is done:
+                return a is b
             if a != b:
                 return False
-        return True
 
     def __neq__(self, other):
         return not self.__eq__(other)
